@@ -225,7 +225,10 @@ impl<'a> Trial<'a> {
                 // put carrying it registers the key in the entity index and a later
                 // delete leaves scan() listing it (live-store semantics, not judged here),
                 // so those value kinds are used on emb: keys only.
-                let kind = if !key.starts_with("emb:") && (*v % 12 == 10 || *v % 12 == 11) { 6 } else { *v };
+                // (`_embedding` on a key outside the emb: class registers the key in the
+                // entity index; until fix bb60b52b a later delete left scan() listing it —
+                // the value kinds are now used on every key class)
+                let kind = *v;
                 let val = if *v >= 200 && !key.starts_with("emb:") {
                     self.ctx.probe("log_record_above_16mib");
                     huge_value((*v).min(202), *u)
